@@ -9,8 +9,13 @@ import time
 from . import frontend, report
 from .frontend import AnalysisBroken
 
-INSTANTIATIONS_THOROUGH = [
+# the quick tier analyses two numeric types: `double` is also the type of unsuffixed literals and of
+# default template arguments, so a place that silently falls back to double is only visible with
+# another T (seeded change C10-selector-default-type)
+INSTANTIATIONS_QUICK = [
     ('float', 'std::mt19937'),
+]
+INSTANTIATIONS_THOROUGH = [
     ('long double', 'std::mt19937_64'),
     ('double', 'std::minstd_rand'),
     ('double', 'std::ranlux48'),
@@ -23,6 +28,26 @@ def run_rules(pid, ctx, prog, label=None):
     ctx.prog = prog
     ctx.inst_label = label
     mod.check(ctx)
+
+
+def _load(args):
+    repo, numeric, engine = args
+    try:
+        frontend.load(repo, numeric=numeric, engine=engine)
+    except Exception:
+        pass
+    return True
+
+
+def preload(repo, insts):
+    """parse the instantiations concurrently (each is one clang run); results land in the
+    content-addressed cache and are picked up by the sequential loads below"""
+    from concurrent.futures import ProcessPoolExecutor
+    try:
+        with ProcessPoolExecutor(max_workers=min(8, len(insts))) as ex:
+            list(ex.map(_load, [(repo, n, e) for n, e in insts]))
+    except Exception:
+        pass
 
 
 def main(argv):
@@ -39,6 +64,10 @@ def main(argv):
     seed = int(os.environ.get('VERIF_SEED', '0') or 0)
     t0 = time.time()
     ctx = report.Ctx(pid, tier, None, seed)
+    extra = list(INSTANTIATIONS_QUICK)
+    if tier == 'thorough':
+        extra += INSTANTIATIONS_THOROUGH
+    preload(a.repo, [('double', 'std::mt19937')] + extra)
     try:
         prog = frontend.load(a.repo, use_cache=not a.no_cache)
     except AnalysisBroken as e:
@@ -56,15 +85,15 @@ def main(argv):
         run_rules(pid, ctx, prog, 'double/std::mt19937')
     except AnalysisBroken as e:
         ctx.broken('rules', pid, str(e))
+    for numeric, engine in extra:
+        label = '%s/%s' % (numeric, engine)
+        try:
+            p2 = frontend.load(a.repo, numeric=numeric, engine=engine)
+            run_rules(pid, ctx, p2, label)
+        except AnalysisBroken as e:
+            ctx.broken('instantiation', label, str(e))
+    ctx.prog = prog
     if tier == 'thorough':
-        for numeric, engine in INSTANTIATIONS_THOROUGH:
-            label = '%s/%s' % (numeric, engine)
-            try:
-                p2 = frontend.load(a.repo, numeric=numeric, engine=engine)
-                run_rules(pid, ctx, p2, label)
-            except AnalysisBroken as e:
-                ctx.broken('instantiation', label, str(e))
-        ctx.prog = prog
         if not a.no_controls:
             from . import controls
             controls.run(pid, ctx, a.repo)
